@@ -40,6 +40,8 @@ TRUSTED = [
     "cell volume / in-plane cell area = |det L| / |a1 x a2| (= |a3| when a3 is perpendicular); the oracle embeds the "
     "models with in-plane cells of any shape and a3 of length 0.5-4 Angstrom, perpendicular or tilted, and checks "
     "AHC_z * c = -C e^2/h plus CumDOS/DOS per cell independent of c",
+    "Data_K.dEig_inv is modelled per k-point (dEigInvAllK); the correspondence samples the real array for nk up to 3000 "
+    "(first, last three, random indices)",
     "correspondence inputs keep every energy gap either exactly 0, 2^-40 (< 1e-7/1e5) or >= 2^-12 (> 1e-7*2000)",
 ]
 RULE = ("corr: 2-6 bands, sorted dyadic energies with exact and sub-threshold degeneracies, Hermitian Gaussian-dyadic "
@@ -49,7 +51,10 @@ RULE = ("corr: 2-6 bands, sorted dyadic energies with exact and sub-threshold de
         "exact (spin-doubled or tuned) or near-degenerate (2e-5 .. 0.02, degen_thresh 1e-4 and 0.05) multiplet of a grid "
         "k-point with CumDOS checked in the same run, calculator-reuse histories (the same AHC/CumDOS/DOS objects across "
         "2-3 run() calls on embeddings with different cell volumes and grids with different NKFFT, each compared with "
-        "fresh calculators and with the Chern reference), Haldane-type models in both phases.  non-trivial = at least "
+        "fresh calculators and with the Chern reference), single FFT grids (one Data_K) of 36 to ~4400 k-points incl. "
+        "1600 and 2500, a size-generic component check (dEig_inv, |D_H|, Berry curvature of a Data_K with nk in {1, 7, "
+        "1023, 1024, 1025, 2049, 3000, random} at the first, last three and random k-points against the same k-point "
+        "evaluated alone), Haldane-type models in both phases.  non-trivial = at least "
         "one block has a non-zero internal curvature (sum rule) / the model is gapped with margin (Chern); "
         "distinct = distinct (kind, seed, parameters)")
 
@@ -165,6 +170,7 @@ def corr(ctx):
             lines.append(f"blocks {head} {flatV(re)} {flatV(im)} {ints(borders)}")
             checks.append(("blocks", tot, dict(case, borders=borders, sum_abs_block_traces=mag)))
     sea_corr(ctx, lines, checks)
+    allk_corr(ctx, lines, checks)
     out = ctx.lean(lines)
     for line, o, (kind, got, case) in zip(lines, out, checks):
         ctx.case(signature=line, nontrivial=True)
@@ -196,6 +202,36 @@ def corr(ctx):
             ctx.mismatch(f"{kind}: model and code differ", dict(case=case, model=o[:400], code=got))
     ctx.sample(dict(protocol_line=lines[0][:200], model=out[0][:200]))
     ctx.sample(dict(protocol_line=lines[3][:300], model=out[3][:200], code=checks[3][1]))
+
+
+NK_SIZES = [1, 7, 1023, 1024, 1025, 2049, 3000]
+
+
+def allk_corr(ctx, lines, checks):
+    """Data_K.dEig_inv on arrays of nk k-points (sizes around typical block sizes): the entry of EVERY sampled k-point
+    (first, last few, random) against the per-k model"""
+    from wannierberri.data_K.data_K import Data_K
+    rng = ctx.rng
+    thr = F(1e-7)
+    for nk in NK_SIZES + ([rng.randint(2, 5000)] if ctx.tier == "thorough" else []):
+        nb = rng.randint(2, 3)
+        base = [Fr(rng.randint(-8, 8), 4)]
+        for _ in range(nb - 1):
+            base.append(base[-1] + rng.choice([Fr(1, 4), Fr(1, 2), Fr(1), Fr(3, 2)]))
+        # E[ik][b] = base[b] + (ik mod 8)/8 * (b+1)/4 : dyadic, varies with k, no degeneracies
+        ks = np.arange(nk)
+        Eall = np.array([[float(base[b]) + (k_ % 8) / 8.0 * (b + 1) / 4.0 for b in range(nb)] for k_ in ks])
+        st = _Stub(Eall, None)
+        case = dict(nk=nk, nb=nb)
+        with ctx.attempt("Data_K.dEig_inv on nk k-points", case):
+            arr = Data_K.__dict__["dEig_inv"].func(st)
+            sample = sorted(set([0, nk - 1, max(nk - 2, 0), max(nk - 3, 0), nk // 2]
+                                + [rng.randrange(nk) for _ in range(ctx.n(3, 12))]))
+            for ik in sample:
+                E = [F(x) for x in Eall[ik]]
+                lines.append(f"deinv {rats(E)} {rat(thr)}")
+                checks.append(("deinv", arr[ik].reshape(-1), dict(case, ik=ik)))
+            ctx.count(f"corr.dEig_inv.nk={nk}")
 
 
 def sea_corr(ctx, lines, checks):
@@ -605,7 +641,58 @@ def case_reuse(ctx, case):
             ctx.fail(f"step {istep}: CumDOS from a reused calculator is {cum.tolist()} (expected [1, 2])", dict(info, cumdos=cum))
 
 
-RUNNERS = {"reuse": case_reuse, "sumk": case_sumrule_k, "ahc": case_ahc_above, "chern": case_chern, "sea": case_sea_edge}
+def case_bigk(ctx, case):
+    """one Data_K with nk k-points: dEig_inv, |D_H| and the tabulated Berry curvature at sampled k-points (random, first,
+    last few) equal the values computed one k-point at a time"""
+    from ..wbsys import rand_system, wb
+    import wannierberri.models as M
+    from wannierberri.data_K import get_data_k_class_from_system
+    from wannierberri.calculators import tabulate as T
+    rs = np.random.RandomState(case["seed"])
+    with quiet():
+        if case["system"] == "haldane":
+            s = wb.system.System_PythTB(M.Haldane_ptb(delta=0.2, hop1=-1.0, hop2=0.15, phi=np.pi / 2))
+        else:
+            s = rand_system(rs, num_wann=3, nR=4, max_R=1, matrices=("Ham", "AA"))
+        NKFFT = np.array(case["NKFFT"])
+        grid = wb.Grid(s, NK=NKFFT, NKFFT=NKFFT)
+        cls = get_data_k_class_from_system(s)
+        dk = cls(s, grid=grid, dK=np.zeros(3))
+        tabs = {"O": T.BerryCurvature(), "Oi": T.BerryCurvature(kwargs_formula={"external_terms": False}), "E": T.Energy()}
+        big = {k_: t(dk).data for k_, t in tabs.items()}
+        dei = np.array(dk.dEig_inv)
+        dh = np.abs(np.array(dk.D_H))
+        kpts = np.array(dk.kpoints_all)
+    nk = len(kpts)
+    ctx.case(signature=("bigk", case["system"], tuple(case["NKFFT"]), case["seed"]), nontrivial=True)
+    ctx.count(f"oracle.bigk.nk={nk}")
+    sample = sorted(set([0, nk - 1, max(nk - 2, 0), max(nk - 3, 0), nk // 2, (nk * 3) // 4]
+                        + [int(rs.randint(nk)) for _ in range(case.get("nsample", 4))]))
+    grid1 = None
+    for ik in sample:
+        k = kpts[ik]
+        with quiet():
+            if grid1 is None:
+                grid1 = wb.Grid(s, NK=1, NKFFT=1)
+            d1 = cls(s, grid=grid1, dK=k)
+            one = {k_: t(d1).data[0] for k_, t in tabs.items()}
+            dei1 = np.array(d1.dEig_inv)[0]
+            dh1 = np.abs(np.array(d1.D_H))[0]
+        info = dict(case, nk=nk, ik=ik, k=k)
+        gapmin = np.abs(np.diff(one["E"])).min()
+        if gapmin < 1e-3:
+            continue
+        tol = 1e-8 * max(1.0, 1e-2 / gapmin ** 2)
+        for name, a, b in (("dEig_inv", dei[ik], dei1), ("|D_H|", dh[ik], dh1), ("energy", big["E"][ik], one["E"]),
+                           ("berry_curvature", big["O"][ik], one["O"]), ("berry_curvature_internal", big["Oi"][ik], one["Oi"])):
+            sc = 1.0 + max(np.abs(a).max(), np.abs(b).max())
+            if np.abs(a - b).max() > tol * sc:
+                ctx.fail(f"{name} at k-point number {ik} of a Data_K with {nk} k-points (NKFFT {list(case['NKFFT'])}) differs "
+                         f"from the value computed for that k-point alone by {np.abs(a - b).max():.3e}",
+                         dict(info, quantity=name, in_grid=a, alone=b))
+
+
+RUNNERS = {"bigk": case_bigk, "reuse": case_reuse, "sumk": case_sumrule_k, "ahc": case_ahc_above, "chern": case_chern, "sea": case_sea_edge}
 
 
 def gen_lattice_2d(rng):
@@ -617,6 +704,16 @@ def gen_lattice_2d(rng):
     return [[l1, 0.0, 0.0], [sh, l2, 0.0], [tilt[0], tilt[1], c]]
 
 
+def gen_nk(rng):
+    """(NK, NKFFT) with NK adequate for the quantisation and the size of ONE FFT grid anywhere from 36 to ~4400 k-points"""
+    kind = rng.random()
+    if kind < 0.35:
+        f = rng.choice([6, 7, 9, 12])
+        return f * rng.choice([5, 6]), f
+    f = rng.choice([33, 40, 50, 65]) if kind < 0.7 else rng.randint(30, 66)
+    return f, f
+
+
 def gen_chern_case(rng):
     hop2 = rng.choice([0.15, 0.1, 0.2, 0.3]) * rng.choice([1, -1])
     phi = rng.choice([np.pi / 2, -np.pi / 2, np.pi / 3, -2 * np.pi / 3, 0.7, 2.2, -1.1])
@@ -625,7 +722,7 @@ def gen_chern_case(rng):
     delta = crit * rng.choice([0.0, 0.2, 0.45, -0.3]) if topo else crit * rng.choice([1.8, -2.0, 2.5]) + 0.0
     return dict(kind="chern", seed=rng.getrandbits(31), builder=rng.choice(["ptb", "tbm"]), delta=float(delta),
                 hop1=rng.choice([-1.0, 1.0, -0.8]), hop2=float(hop2), phi=float(phi),
-                perturb=rng.choice([0, 0, 0.03, 0.06]), NK=rng.choice([36, 42, 48]), NKFFT=6,
+                perturb=rng.choice([0, 0, 0.03, 0.06]), **dict(zip(("NK", "NKFFT"), gen_nk(rng))),
                 lattice=(gen_lattice_2d(rng) if rng.random() < 0.7 else None))
 
 
@@ -657,6 +754,19 @@ def oracle(ctx, scale):
                       NK=36, NKFFT=6, lattice=[[1.0, 0.0, 0.0], [0.5, np.sqrt(3) / 2, 0.0], [0.0, 0.0, 2.5]]))
     cases.append(dict(kind="chern", seed=4, builder="ptb", delta=0.2, hop1=-1.0, hop2=0.15, phi=-np.pi / 2, perturb=0.03,
                       NK=36, NKFFT=6, lattice=gen_lattice_2d(rng)))
+    # single FFT grids of 1600 and 2500 k-points (one Data_K per run)
+    cases.append(dict(kind="chern", seed=5, builder="ptb", delta=0.2, hop1=-1.0, hop2=0.15, phi=np.pi / 2, perturb=0,
+                      NK=40, NKFFT=40))
+    cases.append(dict(kind="chern", seed=6, builder="tbm", delta=0.2, hop1=-1.0, hop2=0.15, phi=-np.pi / 2, perturb=0,
+                      NK=50, NKFFT=50, lattice=gen_lattice_2d(rng)))
+    shapes = {1: (1, 1, 1), 7: (7, 1, 1), 1023: (33, 31, 1), 1024: (32, 32, 1), 1025: (41, 25, 1), 2049: (683, 3, 1),
+              3000: (50, 60, 1)}
+    for nk in NK_SIZES:
+        cases.append(dict(kind="bigk", seed=rng.getrandbits(31), system="haldane" if nk > 1025 or rng.random() < 0.5 else "random",
+                          NKFFT=list(shapes[nk])))
+    for _ in range(ctx.n(1, 8) * scale):
+        a, b = rng.randint(3, 70), rng.randint(3, 70)
+        cases.append(dict(kind="bigk", seed=rng.getrandbits(31), system="haldane", NKFFT=[a, b, 1]))
     for _ in range(ctx.n(4, 40) * scale):
         cases.append(gen_chern_case(rng))
     for _ in range(ctx.n(2, 10) * scale):
@@ -684,7 +794,8 @@ def replay(ctx, case):
                     "ahc": ("kind", "seed", "nw", "doubled", "tetra", "kramers", "degen_thresh"),
                     "chern": ("kind", "seed", "builder", "delta", "hop1", "hop2", "phi", "perturb", "NK", "NKFFT", "lattice"),
                     "sea": ("kind", "seed", "nw", "m", "delta", "doubled", "kramers", "where", "degen_thresh"),
-                    "reuse": ("kind", "builder", "delta", "hop1", "hop2", "phi", "steps")}[c["kind"]]
+                    "reuse": ("kind", "builder", "delta", "hop1", "hop2", "phi", "steps"),
+                    "bigk": ("kind", "seed", "system", "NKFFT")}[c["kind"]]
             cc = {k: c[k] for k in keys if k in c}
             print("replaying", cc)
             RUNNERS[c["kind"]](ctx, cc)
